@@ -328,7 +328,39 @@ def scen_node_ticks(cfg):
     return scenario
 
 
-SCENARIOS = {"push_ts_input": scen_push_ts_input, "push_zip": scen_push_zip, "nonblocking": scen_nonblocking, "blocking": scen_blocking,
+def scen_steps(cfg):
+    """C03's step clauses on the real tick chain (driver shared with C04, obligations stated in C03's own terms): sequence numbers handed to
+    and recorded for consecutive steps are gap-free, a step never starts before the previous one ended (whatever the scheduling mode, also
+    when a step overruns its period), and what downstream connections are told is the step's end time under the step's sequence number."""
+    from props import c04
+    from vlib.pysym import SymBool, T
+
+    def scenario(V):
+        node, rec, obs, inp = c04.build(V, cfg)
+        K = cfg["nticks"]
+        rs = node._record_steps
+        fired = all(o["fired"] for o in obs) and len(rs) == K
+        res = {}
+        res["steps are handed consecutive sequence numbers and recorded under consecutive ticks"] = fired and [int(x.seq) for x in node.node.step_calls] == list(range(K)) and [r.seq for r in rs] == list(range(K))
+        if not fired:
+            return res
+        told = [[a for t_, n_, a in obs[k]["tasks"] if n_ == "push_ts_input" and t_ is inp["out_conn"]] for k in range(K)]
+        res["each step announces exactly one output, numbered like the step"] = all(len(told[k]) == 1 and told[k][0][1].seq == k and rs[k].sent.seq == k for k in range(K))
+        if V.symbolic:
+            res["steps of one node never overlap in time: start_k >= end_{k-1} and end_k >= start_k"] = SymBool(z3.And(
+                *[T(rs[k].ts_start) >= T(rs[k - 1].ts_end) for k in range(1, K)], *[T(rs[k].ts_end) >= T(rs[k].ts_start) for k in range(K)]))
+            res["the announced send time is the end of the producing step"] = SymBool(z3.And(*[z3.And(T(told[k][0][0]) == T(rs[k].ts_end), T(told[k][0][1].ts) == T(rs[k].ts_end)) for k in range(K) if told[k]]))
+            res["twin:overrun (delay longer than the period)"] = SymBool(T(node.delays[0]) > Fraction(1, cfg["rate"]))
+        else:
+            tol = 0.0  # rex takes start = max(..., end of previous step) and end = start + delay on the same floats: the comparisons are exact
+            res["steps of one node never overlap in time: start_k >= end_{k-1} and end_k >= start_k"] = all(rs[k].ts_start >= rs[k - 1].ts_end - tol for k in range(1, K)) and all(rs[k].ts_end >= rs[k].ts_start - tol for k in range(K))
+            res["the announced send time is the end of the producing step"] = all(abs(told[k][0][0] - rs[k].ts_end) <= tol and abs(told[k][0][1].ts - rs[k].ts_end) <= tol for k in range(K) if told[k])
+        return res
+
+    return scenario
+
+
+SCENARIOS = {"steps": scen_steps, "push_ts_input": scen_push_ts_input, "push_zip": scen_push_zip, "nonblocking": scen_nonblocking, "blocking": scen_blocking,
              "ts_max": scen_ts_max, "selection": scen_selection, "node_ticks": scen_node_ticks}
 
 
@@ -336,7 +368,8 @@ def worker(cfg, tier):
     import rex.asynchronous as A
     from vlib import pysym
 
-    res, stats = pysym.run_scenario(SCENARIOS[cfg["scen"]](cfg), [A], timeout_ms=30000 if tier == "quick" else 120000)
+    extra = {"rex.asynchronous": {"onp": pysym.FakeNumpy(A.onp)}} if cfg["scen"] == "steps" else None
+    res, stats = pysym.run_scenario(SCENARIOS[cfg["scen"]](cfg), [A], extra_patch=extra, timeout_ms=30000 if tier == "quick" else 120000)
     keymap = {"causality (as stated): recv >= sent": KEY_K1}
     whatmap = {"causality (as stated): recv >= sent": "simulated receive time is rounded to the 1 us grid but the send time is not: a message can be recorded as received up to 0.5 us before it was sent (recorded delay slightly negative)"}
     obs, stats = _to_obs(res, stats, cfg, cfg["scen"], keymap, whatmap)
@@ -411,6 +444,11 @@ def configs(tier):
     for rate in ([10, 13] if not th else [3, 10, 13, 50]):
         for nb in (0, 1, 2):
             out.append(dict(scen="node_ticks", rate=rate, n_blocking=nb))
+    for sched in ("frequency", "phase"):
+        for advance in (False, True):
+            for nb, nnb in ((0, 0), (1, 0), (1, 1), (0, 1)) + (((2, 0),) if th else ()):
+                out.append(dict(scen="steps", rate=10 if not th else 13, scheduling=sched, advance=advance, n_blocking=nb, n_nonblocking=nnb,
+                                nticks=3 if not th else 4, init_seq=0 if nb else 5))
     return out
 
 
@@ -425,7 +463,8 @@ def run(rep):
                      "replayed on the unpatched handlers with python floats")
     W = A._AsyncConnectionWrapper
     rep.encode(W.push_ts_input, W.push_input, W.push_zip, W.push_expected_nonblocking, W.push_expected_blocking, W.push_ts_max, W.push_selection,
-               A._AsyncNodeWrapper.push_scheduled_ts, base.InputState.push, A.update_input_state)
+               A._AsyncNodeWrapper.push_scheduled_ts, A._AsyncNodeWrapper.push_phase_shift, A._AsyncNodeWrapper.push_step, A._AsyncNodeWrapper._reset,
+               A._AsyncNodeWrapper._start, W.reset, W.start, base.InputState.push, A.update_input_state)
     miss_n, miss_c = asyncsym.attribute_selftest()
     miss_n = [m for m in miss_n if m != "_async_step"]
     if miss_n or miss_c:
